@@ -401,6 +401,7 @@ void build_seed_r3(File &f) {
     MultiTag m2 = b.createMultiTag("m2", "u", b.getDataArray("a4"));
     g1.addMultiTag(m2);
     c.createDataFrame("f1", "t", std::vector<Column>{{"k", "", DataType::Int32}});   // a frame OUTSIDE b1 (C08: foreign frame as dimension)
+    c.createMultiTag("m1", "t", ca);                                                  // and a multi-tag outside b1
 }
 
 } // namespace ops
